@@ -55,7 +55,8 @@ ALL_OPS = ["append", "append_ref", "append_all", "insert_at", "delete_at", "remo
            "put", "put_ref", "set_elem", "set_elem_ref", "set_member", "set_member_ref",
            "concat_empty", "concat_one", "add_assign", "minus_empty", "minus_one", "repeat",
            "slice_full", "slice_head", "sublist", "sorted", "zip", "to_list", "to_set", "to_map",
-           "to_object", "comprehension", "reverse", "spread", "lit_list", "lit_str", "alias"]
+           "to_object", "comprehension", "reverse", "spread", "chunks", "unique", "flatten", "filter",
+           "substitute", "lit_list", "lit_str", "alias"]
 PROBE_OPS = ["append", "put", "set_member", "set_elem"]
 NPROC = max(1, min(16, os.cpu_count() or 1))
 
@@ -148,7 +149,7 @@ def partition(st):
 # ------------------------------------------------------------ programs
 DIRECT = {"a": "a", "b": "b", "s": "outer[0]", "c": "getc()"}
 
-SETUP = ("require List import [reverse, append_all]; "
+SETUP = ("require List import [reverse, append_all, unique, flatten, filter]; "
          "def mk() do def c = NULL; [fn() c, fn(v) do c = v; NULL end, fn(f) f(c), "
          "fn(v) do c += v; NULL end] end; "
          "NULL")
@@ -272,6 +273,16 @@ def op_source(op, kind):
     elif o == "spread":
         body = "[...@]"
         force = True      # the spread operator wants an identifier
+    elif o == "chunks":
+        body = f"chunks(@, {x})"
+    elif o == "unique":
+        body = "unique(@)"
+    elif o == "flatten":
+        body = "flatten(@)"
+    elif o == "filter":
+        body = "filter(@, fn(e) TRUE)"
+    elif o == "substitute":
+        body = f"substitute(@, 0, {x})"
     else:
         raise MachineryError("unknown model operation " + o)
     return bind(t, wrap_expr(n, body, force))
